@@ -10,6 +10,8 @@ CONSTANTS
   MaxParties = 3
   HistLen = 3
   JwsEmbeds = {TRUE}
+  PayClasses = {"pattern"}
+  KeyVars = {"plain"}
   Deviation = "none"
 INVARIANTS HistoryFree HAcceptOnlyIf HRoundTrip HPayloadIntact
 CHECK_DEADLOCK FALSE
